@@ -238,6 +238,19 @@ END_RE = re.compile(r"^\s*(\d+\s+)?end\b", re.I)
 OPEN_RE = re.compile(r"^\s*(\d+\s+)?(\w+\s*:\s*)?(module\s+\w+\s*$|subroutine|function|integer function|do\s+(?!\d)|if\b.*\bthen\s*$|select|where\s*\(.*\)\s*$|forall\s*\(.*\)\s*$|associate|type\s*::|interface|block\s*$|critical\s*$|submodule)", re.I)
 
 
+def one_line_form(line):
+    """`where (mask) x = y` / `forall (i = 1:n) a(i) = 0` / `if (c) x = 1`: a statement, not the opening of a construct"""
+    mo = re.match(r"\s*(\d+\s+)?(\w+\s*:\s*)?(where|forall|if)\s*\(", line, re.I)
+    if not mo:
+        return False
+    depth, i = 1, mo.end()
+    while i < len(line) and depth:
+        depth += {"(": 1, ")": -1}.get(line[i], 0)
+        i += 1
+    rest = line[i:].split("!")[0].strip().lower()
+    return bool(rest) and rest != "then"
+
+
 def nesting_rule(m, rid, tier):
     r = RuleResult(rid, "ill-nested programs are rejected, by interpretation of whole programs: from each valid program, variants are made "
                         "by deleting an END statement, repeating one, deleting an opening statement, giving an END another construct or "
@@ -250,7 +263,7 @@ def nesting_rule(m, rid, tier):
             src = table[name]
             lines = src.rstrip("\n").split("\n")
             ends = [k for k, l in enumerate(lines) if END_RE.match(l)]
-            opens = [k for k, l in enumerate(lines) if OPEN_RE.match(l) and not END_RE.match(l)]
+            opens = [k for k, l in enumerate(lines) if OPEN_RE.match(l) and not END_RE.match(l) and not one_line_form(l)]
             named_ends = [k for k in ends if re.search(r"end\s+\w+\s+\w+\s*$", lines[k], re.I)]
             parens = [k for k, l in enumerate(lines) if "(" in l.split("!")[0] and "'" not in l and '"' not in l]
             muts = []
@@ -542,7 +555,7 @@ def strip_comments(src):
 # what the scoping structure of the samples is: {table: (declared symbols, used modules, [nested tables])}
 EXPECTED_TABLES = {
     "main": [("main", ["arr", "idx", "j"], [], [])],
-    "module": [("mod_a", ["n"], ["other_mod"], [("swap_i", ["a", "b", "tmp"], [], []), ("twice", ["x", "y"], [], [])])],
+    "module": [("mod_a", ["nn"], ["other_mod"], [("swap_i", ["a", "b", "tmp"], [], []), ("twice", ["x", "y"], [], [])])],
     "shadow": [("shade", ["cos"], [], [("first", ["sin", "x"], [], []), ("second", ["y"], [], [])])],
     "function": [("fact", ["i", "n"], [], []), ("show", ["x"], [], [])],
     "select": [("case_it", ["k", "msg"], [], [])],
